@@ -11,6 +11,15 @@ CHECKS = {
    technique="exhaustive small-scope enumeration (model checking mode X: all values of bounded domains x field numbers x modes on the real codec)",
    text="Every enumerated (kind, field number, value, decoder mode) case is executed on the real Encoder/Decoder: exact-size canary-framed buffer, double pre-fill slack detection, sentinel-field cursor check, bit-exact decode and full consumption. quick: boundary/bit-length classes + 2^16 sweeps x boundary field numbers; thorough: all 2^32 values of every 32-bit kind (scalar and packed element), all 2^29-1 field numbers x 4 wire types.",
    note="Assumes key and payload encoding are independent (separate calls); 64-bit domains covered by classes, not all 2^64 values. Trusted: Go runtime bounds checks, the check's own reference arithmetic."),
+
+ "C02": dict(level="exploration", design="DESIGN.md §7 C02",
+   technique="exhaustive small-scope enumeration against two independent references (spec-derived refwire + protowire), all field sequences <= L for Skip",
+   text="Every enumerated triple: Encoder bytes == spec-derived reference == protowire; reference bytes decode (safe+fast) to the reference value with full consumption. Skip: every sequence of <= 3 (thorough 4) well-formed fields over an 80-symbol field alphabet: DecodeTag+Skip returns input[start:end], cursor at end, concatenation reproduces the input. thorough adds all 2^32 values of 32-bit kinds and all 2^29-1 field numbers.",
+   note="Keys minimal (conforming writers); wire types 3/4 unsupported by design. Trusted: the two references (cross-checked against each other on every case)."),
+ "C03": dict(level="model_checking", design="DESIGN.md §7 C03",
+   technique="explicit-state BFS over the real csproto.Decoder: every operation in every reachable decoder state, per buffer of an exhaustive bounded family; reference-model comparison per transition",
+   text="For every byte string of length <= 4 (thorough 5) over a 16-symbol wire alphabet (x4 paddings), BFS from NewDecoder over states keyed by all Decoder struct fields; all ~120 operations applied in every reachable state, so call sequences of every length are covered per buffer. Oracle per transition: no panic, cursor in [0,len], err==nil => reference item exists with equal value and advance == item length, over-long declared length => error, nested callee not invoked for over-long length. Declared-length allocation family runs in an address-space-limited subprocess with a per-call TotalAlloc budget; worker death is attributed to the executing case.",
+   note="Inputs longer than the bound / bytes outside the alphabet not covered. State key = raw bytes of the Decoder struct. Every explored transition is an execution of the real code (traces_validated_against_impl == transitions)."),
 }
 
 NOT_YET = {}
